@@ -17,22 +17,18 @@ namespace Adsg
 structure Enc where
   selVars : List Nat                          -- selection choices that have a design variable, in order
   pick : List Int → Assign                    -- correction target for the (clamped) selection vector
-  /-- per declared selection variable: reported (active) in the architecture with this row? (an active
-      choice left with a single feasible option is applied automatically and reported inactive by
-      some encoders) -/
-  selShown : List (Option Nat) → List Bool
+  selShown : List (Option Nat) → List Bool   -- per declared selection variable: reported (active) in the architecture with this row? (an active choice left with a single feasible option is applied automatically and reported inactive by some encoders)
   connNOpts : List (List Nat)                 -- per connection choice: declared option counts
   tables : List (List Node → Option Table)    -- per connection choice: table for an architecture's node set
   imps : List (List Node → List Int → Nat)    -- per connection choice: imputer pick for an architecture's node set
 
-/-- Activeness of the declared selection variables: the choice is active in the architecture and the
-    encoder shows it. -/
+/-- Activeness of the declared selection variables of an assignment. -/
 def selAct (g : DSG) (E : Enc) (a : Assign) : List Bool :=
   let r := row g a
   let m := E.selShown r
   (List.range E.selVars.length).map (fun j => (r.getD (E.selVars.getD j 0) none).isSome && m.getD j true)
 
-/-- Selection vector of an assignment: option index of each shown declared choice, 0 where inactive. -/
+/-- Selection vector of an assignment: option index of each declared choice, 0 where inactive. -/
 def selVec (g : DSG) (E : Enc) (a : Assign) : List Int :=
   let r := row g a
   let act := selAct g E a
@@ -55,9 +51,7 @@ deriving Repr, DecidableEq
     reference semantics, which differs in the activeness reported on a direct hit only). -/
 abbrev Mgr := Option Table → List Nat → (List Int → Nat) → List Int → List Int × List Bool × Option Matrix
 
-/-- Decode of one connection choice's slice in the architecture with node set `X`. A connection choice
-    that does not exist in the architecture (no source connector present) is not decoded through its
-    manager: all its variables are inactive and there are no connections. -/
+/-- Decode of one connection choice's slice in the architecture with node set `X`. -/
 def decodeConn (mgr : Mgr) (P : Problem) (E : Enc) (X : List Node) (k : Nat) (xk : List Int) : List Int × List Bool × Matrix :=
   if connPresent X (P.conn.getD k default) then
     let t := (E.tables.getD k (fun _ => none)) X
@@ -139,6 +133,8 @@ structure EncOK (P : Problem) (E : Enc) : Prop where
   pick_fixed : ∀ a, feasibleAssign P a = true → row P.g (E.pick (selVec P.g E a)) = row P.g a
   /-- one encoder entry per connection choice -/
   conn_len : E.connNOpts.length = P.conn.length ∧ E.tables.length = P.conn.length ∧ E.imps.length = P.conn.length
+  /-- declared option counts are positive (also for a connection choice absent in every architecture) -/
+  conn_pos : ∀ ns ∈ E.connNOpts, ∀ n ∈ ns, 0 < n
   /-- TableWF: for every feasible architecture the table of each connection choice is well formed, its
       matrices are exactly the valid connection sets, option counts are positive, the imputer stays inside. -/
   table_ok : ∀ a, feasibleAssign P a = true → ∀ k, k < P.conn.length →
@@ -149,8 +145,6 @@ structure EncOK (P : Problem) (E : Enc) : Prop where
   /-- the table of a choice depends on the architecture only through which nodes exist -/
   table_congr : ∀ k X Y, (∀ v, v ∈ X ↔ v ∈ Y) → (E.tables.getD k (fun _ => none)) X = (E.tables.getD k (fun _ => none)) Y
   imp_congr : ∀ k X Y, (∀ v, v ∈ X ↔ v ∈ Y) → (E.imps.getD k (fun _ _ => 0)) X = (E.imps.getD k (fun _ _ => 0)) Y
-  /-- declared option counts of connection variables are positive -/
-  conn_pos : ∀ ns ∈ E.connNOpts, ∀ n ∈ ns, 0 < n
   g_wf : P.g.WF = true
   /-- declared selection variables are choices of the graph that have options -/
   sel_lt : ∀ c ∈ E.selVars, c < P.g.sel.length ∧ 0 < (P.g.sel.getD c default).opts.length
